@@ -588,10 +588,15 @@ void urcu_bp_unregister(struct rcu_reader *rcu_reader_reg)
 	mutex_lock(&rcu_registry_lock);
 	remove_thread(rcu_reader_reg);
 	mutex_unlock(&rcu_registry_lock);
+	/*
+	 * Drop the library reference with signals still blocked: a signal
+	 * handler using the read side would re-register this thread, and
+	 * doing so while urcu_bp_exit() holds init_lock self-deadlocks.
+	 */
+	urcu_bp_exit();
 	ret = pthread_sigmask(SIG_SETMASK, &oldmask, NULL);
 	if (ret)
 		abort();
-	urcu_bp_exit();
 }
 
 /*
